@@ -134,3 +134,14 @@ Theorem C03_reopened_node_catches_up :
     tip (run_adds U (mrun U ops) (bs1 ++ l :: bs2)) = List.last l genesis.
 Proof. exact reopened_node_catches_up. Qed.
 Print Assumptions C03_reopened_node_catches_up.
+
+(** Whenever the process stops, what the database holds once it has discarded its uncommitted
+    window is the last committed image (the empty database before the first commit): store
+    steps reach the database only through the open batch.  The harness checks exactly this at
+    "live" crash points on the real database, and that no byte slice the database handed out
+    is edited in place. *)
+Theorem C03_committed_side_is_the_last_commit :
+  ∀ R l d' imgs, run_sevs db_init (compile_all R l) [] = Some (d', imgs) →
+    com d' = List.last imgs empty_img.
+Proof. exact committed_side_is_last_commit. Qed.
+Print Assumptions C03_committed_side_is_the_last_commit.
